@@ -937,3 +937,549 @@ Theorem extract_active_spec g g' bs : ginv g -> extract_active g = (g', bs) ->
 Proof.
   intros G H. apply extract_list_spec; [exact G | apply active_ids_valid; exact G | exact H].
 Qed.
+
+(* ======================================================================================== *)
+(** ** extract_global_state hands out the global objects themselves *)
+
+Lemma global_unit_refs g id p : phys_get (g_phys g) id = Some p ->
+  u_id (global_unit g id p) = id /\ grefs g id = Some (urefs (global_unit g id p)).
+Proof.
+  intro H. unfold global_unit, grefs. rewrite H. destruct (lift_get (g_lift g) id). simpl. auto.
+Qed.
+
+Lemma global_children_In g i : forall cs j u, In u (global_children g i j cs) ->
+  exists k p, nth_error cs k = Some p /\ u = global_unit g (Leaf i (j + k)) p.
+Proof.
+  induction cs as [|pc r IH]; simpl; intros j u H; [destruct H|].
+  destruct H as [<-|H].
+  - exists 0, pc. rewrite Nat.add_0_r. auto.
+  - destruct (IH (S j) u H) as [k [p [Hk Hu]]]. exists (S k), p. rewrite <- plus_n_Sm. auto.
+Qed.
+
+Lemma global_roots_In g : forall ph i b, In b (global_roots g i ph) ->
+  exists k p cs, nth_error ph k = Some (p, cs) /\
+    b = mkBranch (global_unit g (Root (i + k)) p) (global_children g (i + k) 0 cs).
+Proof.
+  induction ph as [|[p cs] r IH]; simpl; intros i b H; [destruct H|].
+  destruct H as [<-|H].
+  - exists 0, p, cs. rewrite Nat.add_0_r. auto.
+  - destruct (IH (S i) b H) as [k [p' [cs' [Hk Hb]]]]. exists (S k), p', cs'. rewrite <- plus_n_Sm. auto.
+Qed.
+
+Theorem extract_global_aliases_lemma g b u :
+  In b (extract_global g) -> In u (units b) -> grefs g (u_id u) = Some (urefs u).
+Proof.
+  intros Hb Hu. unfold extract_global in Hb. apply global_roots_In in Hb.
+  destruct Hb as [k [p [cs [Hk ->]]]]. simpl in Hk. destruct Hu as [<-|Hu].
+  - simpl. assert (P : phys_get (g_phys g) (Root k) = Some p) by (simpl; rewrite Hk; reflexivity).
+    destruct (global_unit_refs g _ _ P) as [-> R]. exact R.
+  - simpl in Hu. apply global_children_In in Hu. destruct Hu as [j [pc [Hj ->]]]. simpl.
+    assert (P : phys_get (g_phys g) (Leaf k j) = Some pc) by (simpl; rewrite Hk; exact Hj).
+    destruct (global_unit_refs g _ _ P) as [-> R]. exact R.
+Qed.
+
+Lemma grefs_some_valid g id r : grefs g id = Some r -> valid g id.
+Proof. unfold grefs, valid. destruct (phys_get (g_phys g) id); [congruence | discriminate]. Qed.
+
+(* ======================================================================================== *)
+(** ** The invariant is kept by every operation (disciplined or not) *)
+
+Lemma In_branch_addrs b a : In a (branch_addrs b) <-> exists u, In u (units b) /\ In a (unit_addrs u).
+Proof. unfold branch_addrs. apply in_flat_map. Qed.
+
+Lemma cinv_intro g' held' owned' :
+  ginv g' ->
+  (forall b u a, In b held' -> In u (units b) -> In a (unit_addrs u) -> (a < next (g_store g'))%positive) ->
+  (forall b u, In b held' -> In u (units b) -> valid g' (u_id u)) ->
+  (forall a, In a owned' -> (a < next (g_store g'))%positive /\ ~ greach g' a) ->
+  cinv (mkC g' held' owned').
+Proof.
+  intros G H V O. constructor; simpl; auto.
+  - intros b a Hb Ha. apply In_branch_addrs in Ha. destruct Ha as [u [Hu Ha]]. eauto.
+  - intros a Ha. apply O. exact Ha.
+  - intros a Ha. apply O. exact Ha.
+Qed.
+
+Lemma cinv_held_unit c b u a : cinv c -> In b (c_held c) -> In u (units b) -> In a (unit_addrs u) ->
+  (a < next (g_store (c_g c)))%positive.
+Proof. intros C Hb Hu Ha. apply (ci_held c C b a Hb). apply In_branch_addrs. eauto. Qed.
+
+Lemma units_map_unit b k fn u' : In u' (units (map_unit b k fn)) ->
+  In u' (units b) \/ exists u, In u (units b) /\ u' = fn u.
+Proof.
+  unfold units. destruct k as [|k']; simpl.
+  - intros [<-|H]; [right; eauto | left; auto].
+  - intros [<-|H]; [left; auto|]. apply In_upd in H. destruct H as [H|[y [Hy ->]]]; [left; auto | right; eauto].
+Qed.
+
+Lemma rebind_units c h k fn b' u' : In b' (rebind c h k fn) -> In u' (units b') ->
+  (exists b, In b (c_held c) /\ In u' (units b)) \/
+  (exists b u, In b (c_held c) /\ In u (units b) /\ u' = fn u).
+Proof.
+  unfold rebind. intros Hb Hu. apply In_upd in Hb. destruct Hb as [Hb|[b [Hb ->]]].
+  - left; eauto.
+  - apply units_map_unit in Hu. destruct Hu as [Hu|[u [Hu ->]]]; [left; eauto | right; eauto].
+Qed.
+
+Lemma greach_set_store g s a : greach (set_store g s) a <-> greach g a.
+Proof. unfold greach; simpl. tauto. Qed.
+
+Lemma held_unit_In c h k u : held_unit c h k = Some u -> exists b, In b (c_held c) /\ In u (units b).
+Proof.
+  unfold held_unit. destruct (nth_error (c_held c) h) as [b|] eqn:N; [|discriminate].
+  intro H. exists b. split; [eapply nth_error_In; eauto|].
+  unfold get_unit in H. unfold units. destruct k; [injection H as <-; left; reflexivity|].
+  right. eapply nth_error_In; eauto.
+Qed.
+
+Lemma field_set_id f o u : u_id (field_set f o u) = u_id u.
+Proof. destruct f, o; reflexivity. Qed.
+
+Lemma field_set_addrs f o u a : In a (unit_addrs (field_set f o u)) -> In a (unit_addrs u) \/ o = Some a.
+Proof.
+  unfold unit_addrs. destruct f; simpl.
+  - destruct o as [x|]; simpl; [|tauto]. intros [<-|H]; [right; reflexivity | left; right; exact H].
+  - intros [<-|H]; [left; left; reflexivity|]. apply in_app_or in H. destruct H as [H|H].
+    + destruct o as [x|]; simpl in H; [|destruct H]. destruct H as [<-|[]]. right. reflexivity.
+    + left. right. apply in_or_app. auto.
+  - intros [<-|H]; [left; left; reflexivity|]. apply in_app_or in H. destruct H as [H|H].
+    + left. right. apply in_or_app. auto.
+    + destruct o as [x|]; simpl in H; [|destruct H]. destruct H as [<-|[]]. right. reflexivity.
+Qed.
+
+Lemma field_get_addrs f u a : field_get u f = Some a -> In a (unit_addrs u).
+Proof.
+  unfold unit_addrs. destruct f; simpl.
+  - intro H. injection H as <-. left. reflexivity.
+  - intros ->. right. simpl. left. reflexivity.
+  - intros ->. right. apply in_or_app. right. simpl. left. reflexivity.
+Qed.
+
+Lemma select_In {A} (l : list A) : forall hs x, In x (select l hs) -> In x l.
+Proof.
+  induction hs as [|h r IH]; simpl; intros x H; [destruct H|].
+  destruct (nth_error l h) eqn:N; [|auto]. destruct H as [<-|H]; [eapply nth_error_In; eauto | auto].
+Qed.
+
+Lemma inb_In a l : inb a l = true <-> In a l.
+Proof.
+  unfold inb. rewrite existsb_exists. split.
+  - intros [x [Hx E]]. apply Pos.eqb_eq in E. subst. exact Hx.
+  - intro H. exists a. split; [exact H | apply Pos.eqb_refl].
+Qed.
+
+Lemma In_flat_units bs u : In u (flat bs) <-> exists b, In b bs /\ In u (units b).
+Proof. unfold flat. apply in_flat_map. Qed.
+
+Theorem cinv_step c o : cinv c -> cinv (step c o).
+Proof.
+  intro C. pose proof (ci_g c C) as G. destruct o; unfold step.
+  - (* OExtract *)
+    destruct (extract (c_g c) id) as [g' [b|]] eqn:X.
+    + destruct (extract_spec _ _ _ _ G X) as [S1 [W1 [E1 [A1 [N1 [I1 U1]]]]]].
+      assert (L1 : (next (g_store (c_g c)) <= next (g_store g'))%positive) by (destruct E1; assumption).
+      assert (G' : ginv g') by (rewrite S1; apply ginv_set_store; assumption).
+      apply cinv_intro; [exact G' | | |].
+      * intros b0 u a Hb Hu Ha. apply in_app_or in Hb. destruct Hb as [Hb|[<-|[]]].
+        -- pose proof (cinv_held_unit c b0 u a C Hb Hu Ha). lia.
+        -- assert (In a (branch_addrs b)) by (apply In_branch_addrs; eauto). apply A1 in H. lia.
+      * intros b0 u Hb Hu. rewrite S1. unfold valid; simpl. apply in_app_or in Hb. destruct Hb as [Hb|[<-|[]]].
+        -- apply (ci_valid c C b0 u Hb Hu).
+        -- destruct (U1 u Hu) as [Ab _]. eapply abs_some_valid; eauto.
+      * intros a Ha. rewrite S1, greach_set_store. apply in_app_or in Ha. destruct Ha as [Ha|Ha].
+        -- split; [pose proof (ci_owned c C a Ha); simpl; lia | apply (ci_sep c C a Ha)].
+        -- apply A1 in Ha. split; [simpl; lia|]. intro R. apply (gi_reach _ G) in R. lia.
+    + apply extract_none in X. subst g'. destruct C; constructor; assumption.
+  - (* OExtractActive *)
+    destruct (extract_active (c_g c)) as [g' bs] eqn:X.
+    destruct (extract_active_spec _ _ _ G X) as [S1 [W1 [E1 [F1 N1]]]].
+    assert (L1 : (next (g_store (c_g c)) <= next (g_store g'))%positive) by (destruct E1; assumption).
+    assert (G' : ginv g') by (rewrite S1; apply ginv_set_store; assumption).
+    apply cinv_intro; [exact G' | | |].
+    + intros b0 u a Hb Hu Ha. apply in_app_or in Hb. destruct Hb as [Hb|Hb].
+      * pose proof (cinv_held_unit c b0 u a C Hb Hu Ha). lia.
+      * destruct (Forall2_In_r _ _ _ b0 F1 Hb) as [id [_ [A _]]].
+        assert (In a (branch_addrs b0)) by (apply In_branch_addrs; eauto). apply A in H. lia.
+    + intros b0 u Hb Hu. rewrite S1. unfold valid; simpl. apply in_app_or in Hb. destruct Hb as [Hb|Hb].
+      * apply (ci_valid c C b0 u Hb Hu).
+      * destruct (Forall2_In_r _ _ _ b0 F1 Hb) as [id [_ [_ [_ U]]]].
+        destruct (U u Hu) as [Ab _]. eapply abs_some_valid; eauto.
+    + intros a Ha. rewrite S1, greach_set_store. apply in_app_or in Ha. destruct Ha as [Ha|Ha].
+      * split; [pose proof (ci_owned c C a Ha); simpl; lia | apply (ci_sep c C a Ha)].
+      * apply in_flat_map in Ha. destruct Ha as [b0 [Hb Ha]].
+        destruct (Forall2_In_r _ _ _ b0 F1 Hb) as [id [_ [A _]]]. apply A in Ha.
+        split; [simpl; lia|]. intro R. apply (gi_reach _ G) in R. lia.
+  - (* OExtractGlobal *)
+    apply cinv_intro; [exact G | | |].
+    + intros b u a Hb Hu Ha. apply in_app_or in Hb. destruct Hb as [Hb|Hb].
+      * eapply cinv_held_unit; eauto.
+      * pose proof (extract_global_aliases_lemma _ _ _ Hb Hu) as R. apply (gi_reach _ G).
+        unfold urefs in R. eapply grefs_reach; [exact R|]. exact Ha.
+    + intros b u Hb Hu. apply in_app_or in Hb. destruct Hb as [Hb|Hb].
+      * apply (ci_valid c C b u Hb Hu).
+      * eapply grefs_some_valid. eapply extract_global_aliases_lemma; eauto.
+    + intros a Ha. split; [apply (ci_owned c C a Ha) | apply (ci_sep c C a Ha)].
+  - (* OWrite *)
+    destruct (target c h k f) as [a|]; [|exact C].
+    assert (G' : ginv (set_store (c_g c) (write (g_store (c_g c)) a v))).
+    { apply ginv_set_store; [exact G | apply wf_write; apply (gi_wf _ G) | rewrite next_write; lia]. }
+    apply cinv_intro; [exact G' | | |]; cbn [g_store set_store].
+    + intros b u a0 Hb Hu Ha. rewrite next_write. eapply cinv_held_unit; eauto.
+    + intros b u Hb Hu. apply (ci_valid c C b u Hb Hu).
+    + intros a0 Ha. rewrite greach_set_store, next_write.
+      split; [apply (ci_owned c C a0 Ha) | apply (ci_sep c C a0 Ha)].
+  - (* ONew *)
+    destruct (held_unit c h k) as [u0|] eqn:HU; [|exact C].
+    destruct (alloc (g_store (c_g c)) v) as [s' a] eqn:AL.
+    assert (Hs : s' = fst (alloc (g_store (c_g c)) v)) by (rewrite AL; reflexivity).
+    assert (Ha : a = next (g_store (c_g c))) by (pose proof (alloc_addr (g_store (c_g c)) v) as Q; rewrite AL in Q; exact Q).
+    assert (W' : store_wf s') by (rewrite Hs; apply wf_alloc; apply (gi_wf _ G)).
+    assert (N' : next s' = Pos.succ (next (g_store (c_g c)))) by (rewrite Hs; reflexivity).
+    assert (G' : ginv (set_store (c_g c) s')) by (apply ginv_set_store; [exact G | exact W' | lia]).
+    apply cinv_intro; [exact G' | | |]; cbn [g_store set_store].
+    + intros b' u' a' Hb Hu Ha'. destruct (rebind_units c h k _ b' u' Hb Hu) as [[b [Hb0 Hu0]]|[b [u [Hb0 [Hu0 ->]]]]].
+      * pose proof (cinv_held_unit c b u' a' C Hb0 Hu0 Ha'). lia.
+      * apply field_set_addrs in Ha'. destruct Ha' as [Ha'|Ha'].
+        -- pose proof (cinv_held_unit c b u a' C Hb0 Hu0 Ha'). lia.
+        -- injection Ha' as <-. lia.
+    + intros b' u' Hb Hu. unfold valid; simpl.
+      destruct (rebind_units c h k _ b' u' Hb Hu) as [[b [Hb0 Hu0]]|[b [u [Hb0 [Hu0 ->]]]]].
+      * apply (ci_valid c C b u' Hb0 Hu0).
+      * rewrite field_set_id. apply (ci_valid c C b u Hb0 Hu0).
+    + intros a' Ha'. rewrite greach_set_store. apply in_app_or in Ha'. destruct Ha' as [Ha'|[<-|[]]].
+      * split; [pose proof (ci_owned c C a' Ha'); lia | apply (ci_sep c C a' Ha')].
+      * split; [lia|]. intro R. apply (gi_reach _ G) in R. lia.
+  - (* OClear *)
+    apply cinv_intro; [exact G | | |].
+    + intros b' u' a' Hb Hu Ha'. destruct (rebind_units c h k _ b' u' Hb Hu) as [[b [Hb0 Hu0]]|[b [u [Hb0 [Hu0 ->]]]]].
+      * eapply cinv_held_unit; eauto.
+      * apply field_set_addrs in Ha'. destruct Ha' as [Ha'|Ha']; [|discriminate].
+        apply field_set_addrs in Ha'. destruct Ha' as [Ha'|Ha']; [|discriminate].
+        eapply cinv_held_unit; eauto.
+    + intros b' u' Hb Hu. destruct (rebind_units c h k _ b' u' Hb Hu) as [[b [Hb0 Hu0]]|[b [u [Hb0 [Hu0 ->]]]]].
+      * apply (ci_valid c C b u' Hb0 Hu0).
+      * rewrite !field_set_id. apply (ci_valid c C b u Hb0 Hu0).
+    + intros a Ha. split; [apply (ci_owned c C a Ha) | apply (ci_sep c C a Ha)].
+  - (* OShare *)
+    destruct (held_unit c h' k') as [u2|] eqn:HU; [|exact C].
+    destruct (held_unit_In _ _ _ _ HU) as [b2 [Hb2 Hu2]].
+    apply cinv_intro; [exact G | | |].
+    + intros b' u' a' Hb Hu Ha'. destruct (rebind_units c h k _ b' u' Hb Hu) as [[b [Hb0 Hu0]]|[b [u [Hb0 [Hu0 ->]]]]].
+      * eapply cinv_held_unit; eauto.
+      * apply field_set_addrs in Ha'. destruct Ha' as [Ha'|Ha'].
+        -- apply (cinv_held_unit c b u a' C Hb0 Hu0 Ha').
+        -- apply field_get_addrs in Ha'. apply (cinv_held_unit c b2 u2 a' C Hb2 Hu2 Ha').
+    + intros b' u' Hb Hu. destruct (rebind_units c h k _ b' u' Hb Hu) as [[b [Hb0 Hu0]]|[b [u [Hb0 [Hu0 ->]]]]].
+      * apply (ci_valid c C b u' Hb0 Hu0).
+      * rewrite field_set_id. apply (ci_valid c C b u Hb0 Hu0).
+    + intros a Ha. split; [apply (ci_owned c C a Ha) | apply (ci_sep c C a Ha)].
+  - (* OInsert *)
+    rewrite insert_flat. set (bs := select (c_held c) hs).
+    assert (HB : forall u, In u (flat bs) -> exists b, In b (c_held c) /\ In u (units b)).
+    { intros u Hu. apply In_flat_units in Hu. destruct Hu as [b [Hb Hu]]. exists b. split; [|exact Hu].
+      eapply select_In; eauto. }
+    assert (G' : ginv (fold_left insert_unit (flat bs) (c_g c))).
+    { apply ginv_fold_insert; [exact G | |].
+      - intros u Hu. destruct (HB u Hu) as [b [Hb Hu']]. apply (ci_valid c C b u Hb Hu').
+      - intros u a Hu Ha. destruct (HB u Hu) as [b [Hb Hu']]. eapply cinv_held_unit; eauto. }
+    apply cinv_intro; [exact G' | | |]; rewrite ?store_fold_insert.
+    + intros b u a Hb Hu Ha. eapply cinv_held_unit; eauto.
+    + intros b u Hb Hu. apply valid_fold_insert. apply (ci_valid c C b u Hb Hu).
+    + intros a Ha. apply filter_In in Ha. destruct Ha as [Ha Hn].
+      split; [apply (ci_owned c C a Ha)|]. intro R. apply greach_fold_insert in R.
+      destruct R as [R|[u [Hu Hau]]]; [apply (ci_sep c C a Ha); exact R|].
+      apply negb_true_iff in Hn. assert (inb a (flat_map branch_addrs bs) = true); [|congruence].
+      apply inb_In. apply In_flat_units in Hu. destruct Hu as [b [Hb Hu]].
+      apply in_flat_map. exists b. split; [exact Hb|]. apply In_branch_addrs. eauto.
+Qed.
+
+(* ======================================================================================== *)
+(** ** The initial state satisfies the invariant, for every tree *)
+
+Lemma alloc_list_spec : forall vs s s' l, store_wf s -> alloc_list s vs = (s', l) ->
+  store_wf s' /\ (next s <= next s')%positive /\ forall a, In a l -> (a < next s')%positive.
+Proof.
+  induction vs as [|v r IH]; cbn [alloc_list]; intros s s' l W H.
+  - injection H as <- <-. split; [exact W|]. split; [lia | intros a []].
+  - destruct (alloc s v) as [s1 a1] eqn:A. destruct (alloc_list s1 r) as [s2 l2] eqn:B.
+    injection H as <- <-.
+    assert (s1 = fst (alloc s v)) by (rewrite A; reflexivity).
+    assert (a1 = next s) by (pose proof (alloc_addr s v) as Q; rewrite A in Q; exact Q).
+    assert (W1 : store_wf s1) by (subst s1; apply wf_alloc; exact W).
+    assert (N1 : next s1 = Pos.succ (next s)) by (subst s1; reflexivity).
+    destruct (IH s1 s2 l2 W1 B) as [W2 [L2 A2]].
+    split; [exact W2|]. split; [lia|]. intros a [<-|Ha]; [lia | apply A2; exact Ha].
+Qed.
+
+Lemma init_phys_spec : forall tree s s' ph, store_wf s -> init_phys s tree = (s', ph) ->
+  store_wf s' /\ (next s <= next s')%positive /\
+  forall n a, In n ph -> In a (fst n :: snd n) -> (a < next s')%positive.
+Proof.
+  induction tree as [|[pv cvs] r IH]; cbn [init_phys]; intros s s' ph W H.
+  - injection H as <- <-. split; [exact W|]. split; [lia | intros n a []].
+  - destruct (alloc s pv) as [s1 p] eqn:A. destruct (alloc_list s1 cvs) as [s2 cs] eqn:B.
+    destruct (init_phys s2 r) as [s3 ns] eqn:D. injection H as <- <-.
+    assert (s1 = fst (alloc s pv)) by (rewrite A; reflexivity).
+    assert (p = next s) by (pose proof (alloc_addr s pv) as Q; rewrite A in Q; exact Q).
+    assert (W1 : store_wf s1) by (subst s1; apply wf_alloc; exact W).
+    assert (N1 : next s1 = Pos.succ (next s)) by (subst s1; reflexivity).
+    destruct (alloc_list_spec _ _ _ _ W1 B) as [W2 [L2 A2]].
+    destruct (IH s2 s3 ns W2 D) as [W3 [L3 A3]].
+    split; [exact W3|]. split; [lia|]. intros n a [<-|Hn] Ha.
+    + simpl in Ha. destruct Ha as [<-|Ha]; [lia|]. apply A2 in Ha. lia.
+    + eapply A3; eauto.
+Qed.
+
+Lemma phys_get_In ph id a : phys_get ph id = Some a -> exists n, In n ph /\ In a (fst n :: snd n).
+Proof.
+  destruct id as [i|i j]; simpl.
+  - destruct (nth_error ph i) as [n|] eqn:N; simpl; [|discriminate]. intro H. injection H as <-.
+    exists n. split; [eapply nth_error_In; eauto | left; reflexivity].
+  - destruct (nth_error ph i) as [[p cs]|] eqn:N; [|discriminate]. intro H.
+    exists (p, cs). split; [eapply nth_error_In; eauto | right; eapply nth_error_In; eauto].
+Qed.
+
+Theorem cinv_init levels npr tree : cinv (mkC (init levels npr tree) [] []).
+Proof.
+  unfold init. destruct (init_phys empty_store tree) as [s ph] eqn:I.
+  destruct (init_phys_spec _ _ _ _ wf_empty I) as [W [_ A]].
+  apply cinv_intro.
+  - constructor; simpl.
+    + exact W.
+    + intros a [[id H]|[id [v [t [H _]]]]]; simpl in H; [|discriminate].
+      apply phys_get_In in H. destruct H as [n [Hn Ha]]. eapply A; eauto.
+    + intro id. simpl. split; [discriminate | congruence].
+    + intros id H. unfold lifted in H. simpl in H. congruence.
+  - intros b u a [].
+  - intros b u [].
+  - intros a [].
+Qed.
+
+(* ======================================================================================== *)
+(** ** Non-interference *)
+
+Definition op_ok (c : cstate) (o : op) : Prop := op_okb c o = true.
+
+(** What one operation does to the abstraction and to the store. *)
+Definition step_spec (c : cstate) (o : op) (c' : cstate) : Prop :=
+  match o with
+  | OInsert hs =>
+      g_store (c_g c') = g_store (c_g c) /\
+      forall id, abs (c_g c') id =
+        match find_last id (flat (select (c_held c) hs)) with
+        | Some u => match abs (c_g c) id with Some _ => Some (uvals (g_store (c_g c)) u) | None => None end
+        | None => abs (c_g c) id
+        end
+  | OWrite h k f v =>
+      (forall id, abs (c_g c') id = abs (c_g c) id) /\
+      (forall a, target c h k f <> Some a -> read (g_store (c_g c')) a = read (g_store (c_g c)) a)
+  | _ =>
+      (forall id, abs (c_g c') id = abs (c_g c) id) /\
+      (forall a, allocated (g_store (c_g c)) a -> read (g_store (c_g c')) a = read (g_store (c_g c)) a)
+  end.
+
+Lemma wf_allocated_lt s a : store_wf s -> allocated s a -> (a < next s)%positive.
+Proof. intros W H. apply W. exact H. Qed.
+
+Theorem step_spec_holds c o : cinv c -> op_ok c o -> step_spec c o (step c o).
+Proof.
+  intros C OK. pose proof (ci_g c C) as G. pose proof (gi_wf _ G) as W.
+  destruct o; unfold step, step_spec.
+  - destruct (extract (c_g c) id) as [g' [b|]] eqn:X.
+    + destruct (extract_spec _ _ _ _ G X) as [S1 [W1 [E1 _]]]. cbn [c_g].
+      split.
+      * intro id'. rewrite S1. apply abs_ext; assumption.
+      * intros a Ha. apply ext_read; [exact E1 | apply wf_allocated_lt; assumption].
+    + apply extract_none in X. subst g'. cbn [c_g]. split; reflexivity.
+  - destruct (extract_active (c_g c)) as [g' bs] eqn:X.
+    destruct (extract_active_spec _ _ _ G X) as [S1 [W1 [E1 _]]]. cbn [c_g].
+    split.
+    + intro id'. rewrite S1. apply abs_ext; assumption.
+    + intros a Ha. apply ext_read; [exact E1 | apply wf_allocated_lt; assumption].
+  - cbn [c_g]. split; reflexivity.
+  - destruct (target c h k f) as [a|] eqn:T; [|split; reflexivity]. cbn [c_g].
+    unfold op_ok, op_okb in OK. rewrite T in OK. apply inb_In in OK.
+    split.
+    + intro id. apply abs_write. apply (ci_sep c C a OK).
+    + intros a0 Ha. cbn [g_store set_store]. apply read_write_other. congruence.
+  - destruct (held_unit c h k); [|split; reflexivity].
+    destruct (alloc (g_store (c_g c)) v) as [s' a] eqn:AL. cbn [c_g].
+    assert (Hs : s' = fst (alloc (g_store (c_g c)) v)) by (rewrite AL; reflexivity).
+    assert (E : ext (g_store (c_g c)) s') by (rewrite Hs; apply ext_alloc).
+    split.
+    + intro id. apply abs_ext; assumption.
+    + intros a0 Ha. cbn [g_store set_store]. apply ext_read; [exact E | apply wf_allocated_lt; assumption].
+  - cbn [c_g]. split; reflexivity.
+  - destruct (held_unit c h' k'); cbn [c_g]; split; reflexivity.
+  - cbn [c_g]. rewrite insert_flat. split; [apply store_fold_insert|].
+    intro id. apply abs_fold_insert.
+    unfold op_ok, op_okb in OK. rewrite forallb_forall in OK. apply Forall_forall. exact OK.
+Qed.
+
+Fixpoint trace_spec (c : cstate) (ops : list op) : Prop :=
+  match ops with
+  | [] => True
+  | o :: r => step_spec c o (step c o) /\ trace_spec (step c o) r
+  end.
+
+Theorem noninterference_lemma : forall ops c, cinv c -> disciplinedb c ops = true -> trace_spec c ops.
+Proof.
+  induction ops as [|o r IH]; intros c C D; simpl; [exact I|].
+  simpl in D. apply andb_true_iff in D. destruct D as [D1 D2].
+  split; [apply step_spec_holds; assumption|]. apply IH; [apply cinv_step; exact C | exact D2].
+Qed.
+
+Lemma cinv_run : forall ops c, cinv c -> cinv (run c ops).
+Proof.
+  unfold run. induction ops as [|o r IH]; simpl; intros c C; [exact C|]. apply IH. apply cinv_step. exact C.
+Qed.
+
+Definition is_insert (o : op) : bool := match o with OInsert _ => true | _ => false end.
+
+(** Between two commits the global state does not change. *)
+Theorem no_insert_no_change_lemma : forall ops c, cinv c -> disciplinedb c ops = true ->
+  forallb (fun o => negb (is_insert o)) ops = true ->
+  forall id, abs (c_g (run c ops)) id = abs (c_g c) id.
+Proof.
+  unfold run. induction ops as [|o r IH]; intros c C D N id; simpl; [reflexivity|].
+  simpl in D, N. apply andb_true_iff in D. destruct D as [D1 D2].
+  apply andb_true_iff in N. destruct N as [N1 N2].
+  rewrite (IH (step c o) (cinv_step c o C) D2 N2 id).
+  pose proof (step_spec_holds c o C D1) as S. destruct o; try (destruct S as [S _]; apply S).
+  discriminate.
+Qed.
+
+(** A held branch is unaffected by any operation that does not write one of its own objects
+    (values of the branch as it was before the operation; rebinding its attributes is the
+    client's own doing). *)
+Theorem held_branch_isolated_lemma c o b u :
+  cinv c -> In b (c_held c) -> In u (units b) ->
+  (forall h k f v a, o = OWrite h k f v -> target c h k f = Some a -> ~ In a (branch_addrs b)) ->
+  uvals (g_store (c_g (step c o))) u = uvals (g_store (c_g c)) u.
+Proof.
+  intros C Hb Hu Hw. pose proof (ci_g c C) as G. pose proof (gi_wf _ G) as W.
+  assert (Hlt : forall a, In a (unit_addrs u) -> (a < next (g_store (c_g c)))%positive).
+  { intros a Ha. eapply cinv_held_unit; eauto. }
+  assert (Ext : forall s', ext (g_store (c_g c)) s' -> uvals s' u = uvals (g_store (c_g c)) u).
+  { intros s' E. apply uvals_ext; assumption. }
+  destruct o; unfold step.
+  - destruct (extract (c_g c) id) as [g' [b0|]] eqn:X; cbn [c_g].
+    + destruct (extract_spec _ _ _ _ G X) as [_ [_ [E1 _]]]. apply Ext. exact E1.
+    + apply extract_none in X. subst g'. reflexivity.
+  - destruct (extract_active (c_g c)) as [g' bs] eqn:X. cbn [c_g].
+    destruct (extract_active_spec _ _ _ G X) as [_ [_ [E1 _]]]. apply Ext. exact E1.
+  - reflexivity.
+  - destruct (target c h k f) as [a|] eqn:T; [|reflexivity]. cbn [c_g g_store set_store].
+    unfold uvals, urefs. apply rvals_frame. intros a0 Ha0. apply read_write_other.
+    intros ->. apply (Hw h k f v a0 eq_refl T). apply In_branch_addrs. exists u. split; [exact Hu|].
+    exact Ha0.
+  - destruct (held_unit c h k); [|reflexivity].
+    destruct (alloc (g_store (c_g c)) v) as [s' a] eqn:AL. cbn [c_g g_store set_store].
+    apply Ext. assert (Hs : s' = fst (alloc (g_store (c_g c)) v)) by (rewrite AL; reflexivity).
+    rewrite Hs. apply ext_alloc.
+  - reflexivity.
+  - destruct (held_unit c h' k'); reflexivity.
+  - cbn [c_g]. rewrite insert_flat, store_fold_insert. reflexivity.
+Qed.
+
+(** Freshness of a copying extraction. *)
+Theorem extract_fresh_lemma c id g' b :
+  cinv c -> extract (c_g c) id = (g', Some b) ->
+  NoDup (branch_addrs b) /\
+  forall a, In a (branch_addrs b) ->
+    ~ allocated (g_store (c_g c)) a /\ ~ greach g' a /\ ~ In a (c_owned c) /\
+    forall b', In b' (c_held c) -> ~ In a (branch_addrs b').
+Proof.
+  intros C X. pose proof (ci_g c C) as G.
+  destruct (extract_spec _ _ _ _ G X) as [S1 [W1 [E1 [A1 [N1 _]]]]].
+  split; [exact N1|]. intros a Ha. apply A1 in Ha.
+  split; [|split; [|split]].
+  - intro H. apply (gi_wf _ G) in H. lia.
+  - rewrite S1, greach_set_store. intro R. apply (gi_reach _ G) in R. lia.
+  - intro H. apply (ci_owned c C) in H. lia.
+  - intros b' Hb' H. apply (ci_held c C b' a Hb') in H. lia.
+Qed.
+
+(* ======================================================================================== *)
+(** ** Completeness of a branch: node + ancestors + descendants *)
+
+Lemma extract_some_valid g id g' b : extract g id = (g', Some b) -> valid g id.
+Proof.
+  unfold valid. destruct id as [i|i j]; simpl.
+  - destruct (nth_error (g_phys g) i) as [[p cs]|]; simpl; [congruence | discriminate].
+  - destruct (nth_error (g_phys g) i) as [[p cs]|]; [|discriminate].
+    destruct (nth_error cs j); [congruence | discriminate].
+Qed.
+
+Lemma NoDup_map_leaf i : forall n j, NoDup (map (Leaf i) (seq j n)).
+Proof.
+  induction n as [|n IH]; intro j; simpl; constructor; [|apply IH].
+  intro H. apply in_map_iff in H. destruct H as [x [E Hx]]. injection E as ->.
+  apply in_seq in Hx. lia.
+Qed.
+
+Lemma branch_ids_NoDup g id : NoDup (branch_ids g id).
+Proof.
+  destruct id as [i|i j]; simpl.
+  - constructor; [|apply NoDup_map_leaf]. intro H. apply in_map_iff in H. destruct H as [x [E _]]. discriminate.
+  - constructor; [|constructor; [intros [] | constructor]]. intros [E|[]]. discriminate.
+Qed.
+
+Lemma branch_ids_related g id k : valid g id -> valid g k -> (In k (branch_ids g id) <-> related id k).
+Proof.
+  unfold valid, related. intros Vi Vk. destruct id as [i|i j]; simpl.
+  - destruct k as [i'|i' j']; simpl.
+    + split.
+      * intros [E|H]; [left; congruence|]. apply in_map_iff in H. destruct H as [x [E _]]. discriminate.
+      * intros [E|[]]. left. congruence.
+    + split.
+      * intros [E|H]; [discriminate|]. apply in_map_iff in H. destruct H as [x [E _]]. injection E as -> _.
+        right. reflexivity.
+      * intros [E|E]; [discriminate|]. subst i'. right. apply in_map_iff. exists j'. split; [reflexivity|].
+        apply in_seq. unfold nchildren. simpl in Vk. destruct (nth_error (g_phys g) i) as [[p cs]|]; [|congruence].
+        apply nth_error_Some in Vk. lia.
+  - destruct k as [i'|i' j']; simpl.
+    + split.
+      * intros [E|[E|[]]]; [injection E as ->; right; reflexivity | discriminate].
+      * intros [E|E]; [discriminate|]. subst. left. reflexivity.
+    + split.
+      * intros [E|[E|[]]]; [discriminate|]. left. congruence.
+      * intros [E|[]]. right. left. congruence.
+Qed.
+
+Theorem extract_complete_lemma g id g' b : ginv g -> extract g id = (g', Some b) ->
+  (forall k, valid g k -> (In k (map u_id (units b)) <-> related id k)) /\
+  NoDup (map u_id (units b)) /\
+  (forall u, In u (units b) -> abs g (u_id u) = Some (uvals (g_store g') u)) /\
+  (forall k, abs g' k = abs g k).
+Proof.
+  intros G X. destruct (extract_spec _ _ _ _ G X) as [S1 [W1 [E1 [A1 [N1 [I1 U1]]]]]].
+  pose proof (extract_some_valid _ _ _ _ X) as V.
+  split; [|split; [|split]].
+  - intros k Vk. rewrite I1. apply branch_ids_related; assumption.
+  - rewrite I1. apply branch_ids_NoDup.
+  - intros u Hu. apply U1. exact Hu.
+  - intro k. rewrite S1. apply abs_ext; assumption.
+Qed.
+
+(* ======================================================================================== *)
+(** ** insert: exact read-back and aliasing, stated on [insert] *)
+
+Theorem insert_reads_back_lemma g bs id : Forall unit_wf (flat bs) ->
+  abs (insert g bs) id =
+  match find_last id (flat bs) with
+  | Some u => match abs g id with Some _ => Some (uvals (g_store g) u) | None => None end
+  | None => abs g id
+  end.
+Proof. intro W. rewrite insert_flat. apply abs_fold_insert. exact W. Qed.
+
+Theorem insert_aliases_lemma g bs id : Forall unit_wf (flat bs) ->
+  grefs (insert g bs) id =
+  match find_last id (flat bs) with
+  | Some u => match grefs g id with Some _ => Some (urefs u) | None => None end
+  | None => grefs g id
+  end.
+Proof. intro W. rewrite insert_flat. apply grefs_fold_insert. exact W. Qed.
+
+Lemma store_insert g bs : g_store (insert g bs) = g_store g.
+Proof. rewrite insert_flat. apply store_fold_insert. Qed.
